@@ -24,6 +24,7 @@ import (
 	"go/token"
 	"os"
 	"path/filepath"
+	"reflect"
 	"sort"
 	"strconv"
 	"strings"
@@ -263,6 +264,7 @@ func rewrite(src, dst string, sched, osw bool, consts map[string]string, allowCh
 		return err
 	}
 	needSched := false
+	needChan := false
 
 	// imports
 	for _, im := range f.Imports {
@@ -314,23 +316,12 @@ func rewrite(src, dst string, sched, osw bool, consts map[string]string, allowCh
 					return false
 				}
 				switch x := n.(type) {
-				case *ast.SendStmt:
-					fail(x.Pos(), "channel send in instrumented code (func %s)", fd.Name.Name)
 				case *ast.SelectStmt:
 					fail(x.Pos(), "select in instrumented code (func %s)", fd.Name.Name)
-				case *ast.UnaryExpr:
-					if x.Op == token.ARROW {
-						fail(x.Pos(), "channel receive in instrumented code (func %s)", fd.Name.Name)
-					}
 				case *ast.RangeStmt:
 					// ranging over a channel cannot be told apart syntactically from other ranges
 					// without types; channel-typed values only appear with make(chan) in these files.
 				case *ast.CallExpr:
-					if id, ok := x.Fun.(*ast.Ident); ok && id.Name == "make" && len(x.Args) > 0 {
-						if _, ok := x.Args[0].(*ast.ChanType); ok {
-							fail(x.Pos(), "make(chan) in instrumented code (func %s)", fd.Name.Name)
-						}
-					}
 					if se, ok := x.Fun.(*ast.SelectorExpr); ok {
 						if id, ok := se.X.(*ast.Ident); ok && id.Name == "time" && (se.Sel.Name == "Sleep" || se.Sel.Name == "After" || se.Sel.Name == "NewTicker" || se.Sel.Name == "NewTimer" || se.Sel.Name == "Tick") {
 							fail(x.Pos(), "time.%s in instrumented code (func %s)", se.Sel.Name, fd.Name.Name)
@@ -344,6 +335,9 @@ func rewrite(src, dst string, sched, osw bool, consts map[string]string, allowCh
 			}
 			// go statements and runtime.NumCPU
 			rewriteStmts(fd.Body, &needSched, fail)
+			if rewriteChans(fd) {
+				needChan = true
+			}
 		}
 		// runtime.NumCPU anywhere (expressions)
 		ast.Inspect(f, func(n ast.Node) bool {
@@ -385,6 +379,19 @@ func rewrite(src, dst string, sched, osw bool, consts map[string]string, allowCh
 		return rerr
 	}
 
+	if sched {
+		// channel types in declarations outside functions (struct fields, package variables)
+		for _, d := range f.Decls {
+			if gd, ok := d.(*ast.GenDecl); ok && gd.Tok != token.IMPORT {
+				if rewriteChans(gd) {
+					needChan = true
+				}
+			}
+		}
+	}
+	if needChan {
+		addImport(f, "vchan", modPath+"/"+vroot+"/vsync")
+	}
 	if needSched {
 		addImport(f, "vsched", modPath+"/"+vroot+"/vsched")
 	}
@@ -399,6 +406,135 @@ func rewrite(src, dst string, sched, osw bool, consts map[string]string, allowCh
 		return err
 	}
 	return os.WriteFile(dst, buf.Bytes(), 0o644)
+}
+
+// rewriteChans rewrites channel types and operations below n to the vsync.Chan model:
+//
+//	chan T                -> *vchan.Chan[T]
+//	make(chan T[, n])     -> vchan.MakeChan[T]([n])
+//	ch <- v               -> ch.Send(v)
+//	<-ch                  -> ch.Recv()        (v, ok := <-ch -> ch.Recv2())
+//	close(ch)             -> ch.Close()
+//
+// select (and range over a channel) stay unsupported and are refused by the caller.
+func rewriteChans(n ast.Node) bool {
+	used := false
+	chanType := func(ct *ast.ChanType) ast.Expr {
+		used = true
+		return &ast.StarExpr{X: &ast.IndexExpr{X: &ast.SelectorExpr{X: ast.NewIdent("vchan"), Sel: ast.NewIdent("Chan")}, Index: ct.Value}}
+	}
+	fe := func(e ast.Expr) ast.Expr {
+		switch x := e.(type) {
+		case *ast.ChanType:
+			return chanType(x)
+		case *ast.UnaryExpr:
+			if x.Op == token.ARROW {
+				used = true
+				return &ast.CallExpr{Fun: &ast.SelectorExpr{X: x.X, Sel: ast.NewIdent("Recv")}}
+			}
+		case *ast.CallExpr:
+			if id, ok := x.Fun.(*ast.Ident); ok {
+				switch {
+				case id.Name == "make" && len(x.Args) > 0:
+					// the element type was already rewritten to *vchan.Chan[T]
+					if st, ok := x.Args[0].(*ast.StarExpr); ok {
+						if ix, ok := st.X.(*ast.IndexExpr); ok {
+							if se, ok := ix.X.(*ast.SelectorExpr); ok && se.Sel.Name == "Chan" {
+								if pk, ok := se.X.(*ast.Ident); ok && pk.Name == "vchan" {
+									x.Fun = &ast.IndexExpr{X: &ast.SelectorExpr{X: ast.NewIdent("vchan"), Sel: ast.NewIdent("MakeChan")}, Index: ix.Index}
+									x.Args = x.Args[1:]
+								}
+							}
+						}
+					}
+				case id.Name == "close" && len(x.Args) == 1:
+					used = true
+					x.Fun = &ast.SelectorExpr{X: x.Args[0], Sel: ast.NewIdent("Close")}
+					x.Args = nil
+				}
+			}
+		}
+		return e
+	}
+	fs := func(st ast.Stmt) ast.Stmt {
+		switch x := st.(type) {
+		case *ast.SendStmt:
+			used = true
+			return &ast.ExprStmt{X: &ast.CallExpr{Fun: &ast.SelectorExpr{X: x.Chan, Sel: ast.NewIdent("Send")}, Args: []ast.Expr{x.Value}}}
+		case *ast.AssignStmt:
+			// v, ok := <-ch   (the receive was already rewritten to ch.Recv())
+			if len(x.Lhs) == 2 && len(x.Rhs) == 1 {
+				if ce, ok := x.Rhs[0].(*ast.CallExpr); ok {
+					if se, ok := ce.Fun.(*ast.SelectorExpr); ok && se.Sel.Name == "Recv" && len(ce.Args) == 0 {
+						se.Sel = ast.NewIdent("Recv2")
+					}
+				}
+			}
+		}
+		return st
+	}
+	transform(reflect.ValueOf(n), fe, fs)
+	return used
+}
+
+var exprType = reflect.TypeOf((*ast.Expr)(nil)).Elem()
+var stmtType = reflect.TypeOf((*ast.Stmt)(nil)).Elem()
+
+// transform walks an AST post-order and replaces every expression / statement by f(it).
+func transform(v reflect.Value, fe func(ast.Expr) ast.Expr, fs func(ast.Stmt) ast.Stmt) {
+	switch v.Kind() {
+	case reflect.Ptr, reflect.Interface:
+		if v.IsNil() {
+			return
+		}
+		transform(v.Elem(), fe, fs)
+	case reflect.Slice:
+		for i := 0; i < v.Len(); i++ {
+			transformSlot(v.Index(i), fe, fs)
+		}
+	case reflect.Struct:
+		t := v.Type()
+		if t.PkgPath() != "go/ast" {
+			return
+		}
+		for i := 0; i < v.NumField(); i++ {
+			f := v.Field(i)
+			if !f.CanSet() || t.Field(i).Name == "Obj" || t.Field(i).Name == "Scope" || t.Field(i).Name == "Unresolved" || t.Field(i).Name == "Comments" || t.Field(i).Name == "Doc" || t.Field(i).Name == "Comment" {
+				continue
+			}
+			transformSlot(f, fe, fs)
+		}
+	}
+}
+
+func transformSlot(f reflect.Value, fe func(ast.Expr) ast.Expr, fs func(ast.Stmt) ast.Stmt) {
+	switch {
+	case f.Type() == exprType:
+		if f.IsNil() {
+			return
+		}
+		transform(f, fe, fs)
+		f.Set(reflect.ValueOf(fe(f.Interface().(ast.Expr))))
+	case f.Type() == stmtType:
+		if f.IsNil() {
+			return
+		}
+		transform(f, fe, fs)
+		f.Set(reflect.ValueOf(fs(f.Interface().(ast.Stmt))))
+	default:
+		switch f.Kind() {
+		case reflect.Ptr:
+			if !f.IsNil() {
+				// concrete node pointers (e.g. *ast.CallExpr in defer/go, *ast.BlockStmt): rewritten in place
+				transform(f, fe, fs)
+				if ce, ok := f.Interface().(*ast.CallExpr); ok {
+					fe(ce)
+				}
+			}
+		case reflect.Slice, reflect.Struct, reflect.Interface:
+			transform(f, fe, fs)
+		}
+	}
 }
 
 func recvName(e ast.Expr) string {
